@@ -48,11 +48,25 @@ def unit_path(u):
 def run_unit(pid, unit, seed, rlimit, twin=False, tag=""):
     wd = os.path.join(WORK, pid, unit + tag)
     os.makedirs(wd, exist_ok=True)
-    text, lines, log, meta = build.build_unit(unit_path(unit), REPO, twin=twin)
-    gen = os.path.join(wd, "gen.rs")
-    with open(gen, "w") as f:
-        f.write(text)
-    res = run_verus.run(gen, lines, rlimit=rlimit, seed=seed)
+    force = {}
+    for _round in range(4):
+        text, lines, log, meta = build.build_unit(unit_path(unit), REPO, twin=twin, force_degrade=force)
+        gen = os.path.join(wd, "gen.rs")
+        with open(gen, "w") as f:
+            f.write(text)
+        res = run_verus.run(gen, lines, rlimit=rlimit, seed=seed)
+        # Verus / rustc rejected text that lies inside extracted functions (a construct outside the subset, a woven
+        # hint naming a local that no longer exists, ...): those functions are set aside (contract assumed, their
+        # own obligations undecided) and the unit is tried again, so that the other properties can be decided
+        if not res.get("compile_error") or res.get("timeout"):
+            break
+        rejected = [d for d in res["diags"] if d.kind == "unsupported"]
+        items = {d.item for d in rejected}
+        already = {dg["item"] for dg in log.degraded}
+        if not rejected or None in items or not (items - already) or _round == 3:
+            break
+        for d in rejected:
+            force.setdefault(d.item, f"anchor lost in {d.item}: Verus rejected the woven text ({d.message[:160]})")
     if not twin and any(d.kind == "rlimit" for d in res["diags"]):
         # one retry with 4x the resource limit and another seed (DESIGN §2.1)
         res2 = run_verus.run(gen, lines, rlimit=rlimit * 4, seed=(seed or 0) + 7919)
@@ -110,7 +124,7 @@ def check(pid, tier, seed):
         print(f"UNDECIDED property={pid}: {e}")
         write_evidence(pid, tier, seed, cfg, [], [], [], [f"extraction failed: {e}"], time.time() - t0, undecided=[str(e)])
         # undecided by the verifier: the stored inputs still decide what they can (both tiers)
-        _info, sweep_lines, sweep_rc = candidate_sweep(pid, cfg, False)
+        _info, sweep_lines, sweep_rc = candidate_sweep(pid, cfg, False, tier)
         for l in sweep_lines:
             print(l)
         if sweep_rc == 1:
@@ -119,6 +133,7 @@ def check(pid, tier, seed):
 
     obligations = []      # ids
     failed = {}           # id -> [diag]
+    degraded_notes = []
     for r in runs:
         res, lines, meta = r["res"], r["lines"], r["meta"]
         labs = labels_in(lines, pid)
@@ -127,6 +142,15 @@ def check(pid, tier, seed):
         exec_fns = [f for f in res["functions"] if f["mode"] == "exec"]
         if carries_safety:
             obligations += [f"{pid}.safety:{f['function'].split('::', 1)[-1]}" for f in exec_fns]
+        # functions set aside in this run (an anchor of their weaving was lost): their own obligations are undecided;
+        # properties without an obligation in them are decided with the function's contract assumed (as a callee's is)
+        for dg in r["log"].degraded:
+            mine = [l.replace("~hint", "") for l in dg["labels"] if l.startswith(pid + ".")]
+            if mine or carries_safety:
+                undecided.append(f"{r['unit']}: {dg['reason']}" + (f" — not decided: {', '.join(sorted(set(mine)))}" if mine else " — its safety obligations are not decided"))
+            else:
+                degraded_notes.append(f"[{r['unit']}] {dg['item']} was NOT verified in this run ({dg['reason']}); "
+                                      f"no obligation of {pid} lies in it, its contract is assumed like any callee's")
         if res.get("timeout"):
             undecided.append(f"{r['unit']}: verus timed out")
             continue
@@ -152,8 +176,19 @@ def check(pid, tier, seed):
                     d.where = d.obligation
                     failed.setdefault(oid, []).append(d)
                 else:
-                    undecided.append(f"{r['unit']}: safety obligation failed at {d.obligation} ({d.message}) "
-                                     f"but the unit does not carry safety for {pid}")
+                    # no panic-freedom is claimed here: a possible overflow / index failure inside function F leaves
+                    # undecided what F's own obligations say (they hold only if F returns); properties with no
+                    # obligation in F are decided with F's contract assumed, as for any callee
+                    it = next((l.item for l in lines if l.origin[0] == "repo" and l.origin[1] == rel and l.origin[2] == int(ln)), None)
+                    mine = sorted({lab.replace("~hint", "") for l in lines if it is not None and l.item == it
+                                   for lab in (l.label or "").split(",") if lab.startswith(pid + ".")})
+                    if it is None or mine:
+                        undecided.append(f"{r['unit']}: safety obligation failed at {d.obligation} ({d.message}) "
+                                         f"but the unit does not carry safety for {pid}"
+                                         + (f" — not decided: {', '.join(mine)}" if mine else ""))
+                    else:
+                        degraded_notes.append(f"[{r['unit']}] possible {d.message} at {d.obligation} inside {it}: no obligation "
+                                              f"of {pid} lies in that function (its contract is assumed like any callee's)")
             elif d.kind == "rlimit":
                 undecided.append(f"{r['unit']}: resource limit at {d.obligation}")
             elif d.kind == "aux":
@@ -218,9 +253,10 @@ def check(pid, tier, seed):
     assumptions = []
     for r in runs:
         assumptions += [f"[{r['unit']}] {a}" for a in scan_assumptions(r["lines"])]
+    assumptions += degraded_notes
 
     rc = 0
-    out_lines = []
+    out_lines = ["note: " + n for n in degraded_notes]
     for k in kf:
         if k.get("replay_only"):
             # a defect outside the reach of every contract, seen only by running its stored input on the real crate
@@ -247,21 +283,36 @@ def check(pid, tier, seed):
             out_lines.append(f"note: known finding {k['obligation']} did not fail on this tree")
     replay_paths = []
     if violations:
-        rc = 1
+        real = []
         for o in violations:
             path, witnessed = write_replay(pid, o, failed[o], cfg, runs)
+            # A woven proof step (`~hint`) that fails while the obligation it serves was itself discharged is a failed
+            # PROOF, not a failed obligation: the code may have changed shape under a hint.  It is a violation only
+            # with an input that fails on the real crate; otherwise the obligation is undecided (exit 2).
+            if o.endswith("~hint") and o[:-len("~hint")] not in failed and not witnessed:
+                d = failed[o][0]
+                undecided.append(f"a proof step for {o[:-len('~hint')]} failed ({d.message}) while the obligation itself was "
+                                 f"discharged under it, and no stored input fails on the real crate: not decided")
+                try:
+                    os.unlink(path)
+                except OSError:
+                    pass
+                continue
+            real.append(o)
+            rc = 1
             replay_paths.append(path)
             suffix = "" if witnessed else " no-failing-input-found"
             out_lines.append(f"VIOLATION property={pid} replay={path}{suffix}")
             d = failed[o][0]
             out_lines.append(f"  obligation {o}: {d.message} (at {getattr(d, 'where', d.obligation)})")
+        violations = real
     # ---- thorough tier (and the quick tier when the verifier is undecided): the stored candidate inputs are also run
     # against the real crate.  This decides nothing about
     # the contracts; but an input on which the real code violates the property's own statement is a violation whatever
     # the verifier's verdict was (e.g. when a change moved the code out of the verifier's reach: exit 2 above).
     sweep_info = None
-    if tier == "thorough" or (undecided and not violations):
-        sweep_info, sweep_lines, sweep_rc = candidate_sweep(pid, cfg, bool(violations))
+    if True:    # (both tiers: replaying the stored inputs costs a second or two once the replay binary is built)
+        sweep_info, sweep_lines, sweep_rc = candidate_sweep(pid, cfg, bool(violations), tier)
         out_lines += sweep_lines
         if sweep_rc == 1:
             rc = 1
@@ -286,18 +337,26 @@ def check(pid, tier, seed):
     return rc
 
 
-def candidate_sweep(pid, cfg, already_violated):
+def candidate_sweep(pid, cfg, already_violated, tier="quick"):
     lines, rc = [], 0
     try:
         import witness
-        results = witness.sweep(pid, cfg, REPO)
+        results = witness.sweep(pid, cfg, REPO, generated=(tier == "thorough"))
     except Exception as e:
         return {"error": str(e)}, [f"note: candidate inputs could not be replayed: {e}"], 0
     # an input that is the witness of a listed known finding is expected to fail: it is not a new violation
     known_inputs = {(k.get("witness") or {}).get("input") for k in load_known().get("findings", []) if k["property"] == pid}
     bad = [r for r in results if r["violated"] and r["input"] not in known_inputs]
-    info = {"candidates_replayed": len(results), "violating": len(bad),
+    gen = [r for r in results if r.get("generated")]
+    info = {"candidates_replayed": len(results) - len(gen), "violating": len(bad),
             "violating_but_known_finding": len([r for r in results if r["violated"] and r["input"] in known_inputs])}
+    if gen:
+        per_kind = {}
+        for r in gen:
+            per_kind[r["kind"]] = per_kind.get(r["kind"], 0) + 1
+        info["bounded_exploration"] = {"generated_inputs_per_kind": per_kind, "outside_the_grammar": len([r for r in gen if r.get("unparsable")]),
+                                       "note": "BOUNDED: deterministic pseudo-random inputs from a fixed alphabet (engine/gen_inputs.py), "
+                                               "evaluated by the replay oracle on the real crate; testing, never counted as proof"}
     if bad and not already_violated:
         os.makedirs(os.path.join(VERIF, "replay", "out"), exist_ok=True)
         for k, r in enumerate(bad[:3]):
@@ -389,7 +448,7 @@ def write_evidence(pid, tier, seed, cfg, runs, obligations, failed, assumptions,
             "not_reached": cfg.get("not_reached", []),
             "failed_obligations": sorted(failed.keys()),
             "known_findings_hit": known_hit or [],
-            "stored_inputs_replayed_on_real_crate": sweep if sweep is not None else "not run (thorough tier, or whenever the verifier is undecided)",
+            "stored_inputs_replayed_on_real_crate": sweep if sweep is not None else "not run",
             "undecided": undecided or [],
             "vacuity_twins": twins,
             "extraction_drops": "attributes other than std derives/#[default]; visibility qualifiers; `crate::`/`super::` path prefixes; `use` lines; #[cfg(test)] modules (never extracted)",
